@@ -135,8 +135,8 @@ pub fn drive(tier: Tier) -> i32 {
             Ok(o) if o.status.success() => {
                 let bin = target_base().join("verif").join("c18mt");
                 let per_thread = tier.of(2_000u64, 20_000);
-                for (k, jitter) in [(0u64, "jitter"), (1, "nojitter")] {
-                    let r = run_bin("native", &bin, &["16".into(), (per_thread / (1 + k * 3)).to_string(), (seed + k).to_string(), jitter.into()], &[]);
+                for (k, threads, jitter) in [(0u64, 16u64, "jitter"), (1, 16, "nojitter"), (2, 48, "jitter"), (3, 3, "nojitter")] {
+                    let r = run_bin("native", &bin, &[threads.to_string(), (per_thread * 16 / threads / (1 + k * 3)).max(50).to_string(), (seed + k).to_string(), jitter.into()], &[]);
                     absorb(&mut m, &mut inconclusive, &mut runs, r, false);
                 }
             }
@@ -214,7 +214,7 @@ pub fn drive(tier: Tier) -> i32 {
     }
     m.samples.insert("runs".into(), runs.iter().take(5).cloned().collect());
     let mut fin = Finish {
-        rule: "type-level: the sendprobe crate must compile (Send + Sync for RuleSet, Rule, Expr, Index, Value, Symbols, Error, parse::Error, Outcome; Send for the futures of Expr::evaluate, RuleSet::evaluate_value and RuleSet::evaluate). Runtime: one Arc<RuleSet> (8 rules: cacheable / non-cacheable / failing / suspending user functions, symbols, lazy operators) evaluated for 16 x M distinct inputs by 16 threads from a shared run queue, so every suspended future is resumed by whichever thread takes it next; each outcome and each per-evaluation invocation log must equal the sequential baseline. evaluations = concurrent evaluations compared; non-trivial = evaluations whose future migrated between threads at least once".into(),
+        rule: "type-level: the sendprobe crate must compile (Send + Sync for RuleSet, Rule, Expr, Index, Value, Symbols, Error, parse::Error, Outcome; Send for the futures of Expr::evaluate, RuleSet::evaluate_value and RuleSet::evaluate). Runtime: N x M tasks on N = 3 / 16 / 48 threads pulling from one shared run queue, so every suspended future is resumed by whichever thread takes it next. Half of the tasks evaluate one shared Arc<RuleSet> A (8 rules: cacheable / non-cacheable / failing / suspending user functions, symbols, lazy operators) on distinct inputs, a quarter a second shared ruleset B with the same function / symbol / rule names but different behaviour, an eighth a bare Expr::evaluate, an eighth build their own ruleset inside the task, evaluate and drop it (so allocations of dropped rulesets are reused while other evaluations run); each outcome and each per-evaluation invocation log must equal the baseline obtained by running the same tasks one after another on one thread. evaluations = concurrent evaluations compared; non-trivial = evaluations whose future migrated between threads at least once".into(),
         exhaustive: false,
         ..Default::default()
     };
@@ -242,7 +242,7 @@ fn absorb(m: &mut Merged, inconclusive: &mut Vec<String>, runs: &mut Vec<J>, r: 
                 let sig = "C18 concurrent-outcome-differs".to_string();
                 m.violations.entry(sig.clone()).or_insert(Violation { sig, what: format!("{mism} concurrent evaluations differ from running them one after another"), case: json!({"run": r.label, "first_mismatches": j["first_mismatches"]}), count: mism });
             }
-            runs.push(json!({"run": r.label, "threads": j["threads"], "evaluations": j["evaluations"], "polls": j["polls"], "migrations": j["migrations"], "tasks_migrated": j["tasks_migrated"], "mismatches": mism}));
+            runs.push(json!({"run": r.label, "threads": j["threads"], "evaluations": j["evaluations"], "evaluations_by_kind": j["evaluations_by_kind"], "polls": j["polls"], "migrations": j["migrations"], "tasks_migrated": j["tasks_migrated"], "mismatches": mism}));
         }
         None => {
             if !(sanitizer && r.exit == Some(66)) {
